@@ -321,13 +321,37 @@ func (u *Unit) mapNew(st *State, t *types.Map) Term {
 
 // strOfBytes: string(b) – a string with the same length and characters.
 func (u *Unit) strOfBytes(st *State, b Val) Term {
-	s := u.fresh("str", SStr)
 	el := b.T.Underlying().(*types.Slice).Elem()
 	content := u.elemArray(st, el, b.Arr)
-	st.assume(tEq(tApp("slen", s), b.Len))
-	q := fmt.Sprintf("i!q%d", u.nextQ())
-	st.assume(fmt.Sprintf("(forall ((%s Int)) (! (=> (and (<= 0 %s) (< %s %s)) (= (sat %s %s) (select %s (+ %s %s)))) :pattern ((sat %s %s))))", q, q, q, b.Len, s, q, content, b.Off, q, s, q))
+	s := u.bstr(content, b.Off, b.Len)
+	if !strings.Contains(s, "!q") {
+		// the defining facts for this instance (the global axioms need a trigger term the goal may not contain)
+		r := u.root()
+		if r.bstrSeen == nil {
+			r.bstrSeen = map[string]bool{}
+		}
+		if !r.bstrSeen[s] {
+			r.bstrSeen[s] = true
+			q := fmt.Sprintf("i!q%d", u.nextQ())
+			r.axioms = append(r.axioms, tImp(tLe("0", b.Len), tEq(tApp("slen", s), b.Len)))
+			r.axioms = append(r.axioms, fmt.Sprintf("(forall ((%s Int)) (! (=> (and (<= 0 %s) (< %s %s)) (= (sat %s %s) (select %s (+ %s %s)))) :pattern ((sat %s %s))))", q, q, q, b.Len, s, q, content, b.Off, q, s, q))
+		}
+	}
 	return s
+}
+
+// bstr(content, off, len): the string spelt by a byte range - a function of the bytes, so converting the same bytes
+// twice (or in the code and in a contract) gives the same term.
+func (u *Unit) bstr(content, off, n Term) Term {
+	r := u.root()
+	if !r.bstrDecl {
+		r.bstrDecl = true
+		u.decls.declFun("bstr", []string{sArr(SInt, SInt), SInt, SInt}, SStr)
+		r.axioms = append(r.axioms,
+			"(forall ((c!q (Array Int Int)) (o!q Int) (n!q Int)) (! (=> (<= 0 n!q) (= (slen (bstr c!q o!q n!q)) n!q)) :pattern ((bstr c!q o!q n!q))))",
+			"(forall ((c!q (Array Int Int)) (o!q Int) (n!q Int) (i!q Int)) (! (=> (and (<= 0 i!q) (< i!q n!q)) (= (sat (bstr c!q o!q n!q) i!q) (select c!q (+ o!q i!q)))) :pattern ((sat (bstr c!q o!q n!q) i!q))))")
+	}
+	return tApp("bstr", content, off, n)
 }
 
 // bytesOfStr: []byte(s)
